@@ -53,6 +53,35 @@ let dec_pat (b:int array) =
   let p = go () in
   if !i <> Array.length b then raise Bad else p
 let pat_of s = dec_pat (Array.of_list (ints_of s '.'))
+
+(* patterns with notation: tag 10 = body n (key value)*n *)
+let dec_npat (b:int array) =
+  let i = ref 0 in
+  let byte () = if !i >= Array.length b then raise Bad else (let x = b.(!i) in incr i; x) in
+  let rec go () =
+    let t = byte () in
+    match t with
+    | 0 -> NE (n_of_int (byte ()))
+    | 1 -> NS (n_of_int (byte ()))
+    | 2 -> NY (n_of_int (byte ()))
+    | 3 -> let l = go () in let r = go () in NImp (l, r)
+    | 4 -> let l = go () in let r = go () in NApp (l, r)
+    | 5 -> let x = byte () in let p = go () in NEx (n_of_int x, p)
+    | 6 -> let x = byte () in let p = go () in NMu (n_of_int x, p)
+    | 7 -> let id = byte () in
+           let rd () = let n = byte () in List.init n (fun _ -> 0) |> List.map (fun _ -> n_of_int (byte ())) in
+           let a = rd () in let b' = rd () in let c = rd () in let d = rd () in let e = rd () in
+           NMV (n_of_int id, a, b', c, d, e)
+    | 8 -> let p = go () in let x = byte () in let q = go () in NESub (p, n_of_int x, q)
+    | 9 -> let p = go () in let x = byte () in let q = go () in NSSub (p, n_of_int x, q)
+    | 10 -> let body = go () in let n = byte () in
+            let rec kv k = if k = 0 then [] else (let key = byte () in let v = go () in (n_of_int key, v) :: kv (k-1)) in
+            NInst (body, kv n)
+    | _ -> raise Bad in
+  let p = go () in
+  if !i <> Array.length b then raise Bad else p
+let npat_of s = dec_npat (Array.of_list (ints_of s '.'))
+let npats_of s = if s = "-" || s = "" then [] else List.map npat_of (String.split_on_char ';' s)
 let rec enc p = match p with
   | EVar n -> [0; int_of_n n] | SVar n -> [1; int_of_n n] | Sym n -> [2; int_of_n n]
   | Imp (l, r) -> 3 :: enc l @ enc r | App (l, r) -> 4 :: enc l @ enc r
@@ -199,6 +228,42 @@ let run line =
                           (match deser df (b 5) t2' with
                            | None -> "REJECT P"
                            | Some t3 -> "OK " ^ show_tracker t3)))))
+  | "MOD" ->
+      (* MOD <0|1> <sel|-> <module>...   module = AX|CL|SUBS  (subs = indices of earlier modules); root = last *)
+      let opt = f.(1) = "1" in
+      let sel = npats_of f.(2) in
+      let mods = ref [] in
+      List.iter (fun ms ->
+        match String.split_on_char '|' ms with
+        | [ax; cl; subs] ->
+            let ss = List.map (fun i -> List.nth (List.rev !mods) i) (ints_of subs ',') in
+            mods := Mod (npats_of ax, npats_of cl, ss) :: !mods
+        | _ -> raise Bad) (rest 3);
+      let m = List.hd !mods in
+      let selp = if opt then Some (fun p -> List.exists (fun q -> npat_eqb p q) sel) else None in
+      let calls =
+        (match selp with
+         | None -> (match gamma_calls m, claim_calls m with Some g, Some c -> Some (g, c) | _ -> None)
+         | Some s -> (match mgamma_calls s m with
+                      | Some (g, mem1) -> (match mclaim_calls s m mem1 with Some (c, _) -> Some (g, c) | None -> None)
+                      | None -> None)) in
+      (match calls, mod_files selp m with
+       | Some (gc, cc), Some (((tbl, _), gb), cb) ->
+           (* boundary codes along the run *)
+           let g = guards_sound in
+           let rec codes tbl tr acc = function
+             | [] -> acc
+             | c :: cs -> let w = int_of_n (wf_code g tr c) in
+                          (match ser_step tbl tr c with
+                           | Some ((tbl', tr'), _) -> codes tbl' tr' (max acc w) cs
+                           | None -> max acc w) in
+           let cl = (match m with Mod (_, c, _) -> List.map expand c) in
+           let w = codes [] (fresh_tracker Gamma cl) 0 (gc @ [CIntoClaim] @ cc) in
+           Printf.sprintf "OK tbl[%s] G[%s] C[%s] J[%s] D[%s] w=%d AX[%s]" (show_tbl tbl) (hex gb) (hex cb)
+             (String.concat "," (List.map show (gamma_axioms g gb)))
+             (String.concat "," (List.map show (declared_claims g gb cb))) w
+             (String.concat "," (List.map (fun a -> show (expand a)) (flat_axioms m)))
+       | _, _ -> "REJECT")
   | _ -> "BAD"
 
 let () =
